@@ -90,9 +90,15 @@ func runCAI(p *core.Program) *caiRunResult {
 							if strings.HasPrefix(f, "loop.") && v {
 								a.flagField = strings.TrimPrefix(f, "loop.")
 							}
+							if strings.HasPrefix(f, "eq:loop.") && v {
+								a.flagField = f // an enum test: eq:loop.<field>:<constant>
+							}
 						}
 						if strings.HasPrefix(h, "0-[loop.") {
 							a.flagField = strings.TrimSuffix(strings.TrimPrefix(h, "0-[loop."), "]")
+						}
+						if strings.HasPrefix(h, "0-[eq:loop.") {
+							a.flagField = strings.TrimSuffix(strings.TrimPrefix(h, "0-["), "]")
 						}
 					}
 				}
@@ -395,12 +401,16 @@ func c04r3(c *core.Ctx) {
 			name := strings.TrimPrefix(desc, "loop.")
 			want := "0"
 			if name == a.breakField {
-				if f, known := pth.Facts["loop."+a.flagField]; known {
+				fkey := "loop." + a.flagField
+				if strings.HasPrefix(a.flagField, "eq:") {
+					fkey = a.flagField
+				}
+				if f, known := pth.Facts[fkey]; known {
 					if f {
 						want = "-1"
 					}
 				} else {
-					want = "0-[loop." + a.flagField + "]"
+					want = "0-[" + fkey + "]"
 				}
 			}
 			c.Check(h == want, "compiler."+ctlFn.Name()+"|jump-height:"+name, posOf(p, a.methods[ctlFn]),
